@@ -727,7 +727,17 @@ impl<S: Sample> RenderedImage<S> {
         let oriented_image_region = oriented_image_region
             .unwrap_or_else(|| util::apply_orientation_to_image_region(image_header, image_region));
 
-        let mut grid_lock = self.image.wait_until_render()?;
+        let mut grid_lock = loop {
+            match self.image.wait_until_render() {
+                Ok(grid_lock) => break grid_lock,
+                Err(crate::Error::IncompleteFrame) => {
+                    // The image might have been taken by another frame that overwrites the
+                    // reference slot of this frame. Render it again.
+                    Arc::clone(&self.image).run_with_image()?;
+                }
+                Err(e) => return Err(e),
+            }
+        };
         if let FrameRender::Blended(image) = &*grid_lock {
             return Ok(Arc::clone(image));
         }
